@@ -136,6 +136,14 @@ theorem C08_for_as_truthful (root0 : Obj) (as_ : Str) (v : V) (i n : Nat) :
   refine ⟨C18.objInsert_get _ _ _, fun h => ?_⟩
   rw [C18.objInsert_get_other _ _ _ _ (Ne.symm h), C18.objInsert_get]
 
+/-- … and that `forloop` has **no enclosing loop**: whatever loops the caller is in, the
+`parentloop` the partial sees is nil (falsy), so nothing of the caller's loop state is reachable
+through it. -/
+theorem C08_for_as_no_parentloop (i n : Nat) :
+    tryFind (forloopObj i n .nil) [.str "parentloop".toList] = some .nil ∧
+    tryFind (forloopObj i n .nil) [.str "parentloop".toList, .str "index".toList] = none := by
+  constructor <;> simp [tryFind, augGet, forloopObj, objGet, Sc.render, iV, bV]
+
 /-! ### include: shared scope -/
 
 /-- **include runs in the caller's scope.** The partial sees its arguments first and every caller
